@@ -262,6 +262,68 @@ func init() {
 				}
 				c09Run(x, prog)
 			}},
+			{Name: "date-component-widths", Quick: []int{1}, Run: func(c *explore.Chooser, x *explore.Ctx, _ int) {
+				// every component x presentation x width modifier with widths at the edges of the integer range
+				comps := []string{"Y", "M", "D", "d", "F", "W", "w", "H", "h", "P", "m", "s", "f", "Z", "z", "C", "E"}
+				pres := []string{"", "1", "01", "0001", "Nn", "N", "n", "1o", "I", "i", "w", "Ww", "a", "A"}
+				nums := []string{"0", "1", "2", "18", "19", "20", "64", "1000", "2147483648", "9000000000000000000", "9223372036854775807", "9223372036854775808", "99999999999999999999"}
+				comp := comps[c.Choose(len(comps))]
+				pr := pres[c.Choose(len(pres))]
+				form := c.Choose(5)
+				n1 := nums[c.Choose(len(nums))]
+				n2 := "1"
+				if form == 2 {
+					n2 = nums[c.Choose(len(nums))]
+				}
+				fn := c.Choose(2)
+				c.Done()
+				var mod string
+				switch form {
+				case 0:
+					mod = "," + n1
+				case 1:
+					mod = ",*-" + n1
+				case 2:
+					mod = "," + n1 + "-" + n2
+				case 3:
+					mod = "," + n1 + "-*"
+				default:
+					mod = ",*"
+				}
+				// huge minimum widths ask for that much padding: sizes of paddings are bounded by the statement
+				if (form == 0 || form == 2 || form == 3) && len(n1) > 4 {
+					return
+				}
+				pic := "[" + comp + pr + mod + "]"
+				if fn == 0 {
+					c09Run(x, `$fromMillis(1521801216617, "`+pic+`")`)
+				} else {
+					c09Run(x, `$toMillis("2018", "`+pic+`")`)
+				}
+			}},
+			{Name: "numeric-edges", Quick: []int{1}, Run: func(c *explore.Chooser, x *explore.Ctx, _ int) {
+				// numbers at the edges of the integer and double ranges in every numeric parameter that is not a size
+				// (padding widths, range bounds and repetition counts are bounded by the statement)
+				edges := []string{"0", "-1", "0.5", "-0.5", "2147483648", "-2147483649", "9007199254740993", "1e18", "9.3e18", "-9.3e18", "1e19", "1e300", "-1e300", "5e-324", "1.7e308", "-1.7e308"}
+				shapes := []string{
+					`$substring("héllo", E)`, `$substring("héllo", E, F)`, `$substring("héllo", 1, E)`, `$split("a,b,c", ",", E)`, `$replace("aaa", "a", "b", E)`,
+					`$replace("aaa", /a/, "b", E)`, `$match("aaa", /a/, E)`, `$round(E)`, `$round(E, F)`, `$round(2.5, E)`, `$power(E, F)`, `$power(2, E)`, `$sqrt(E)`, `$abs(E)`,
+					`$floor(E)`, `$ceil(E)`, `$formatBase(E)`, `$formatBase(E, 2)`, `$formatBase(10, E)`, `$formatNumber(E, "0.00")`, `$formatNumber(E, "#,##0.###e0")`,
+					`$formatNumber(E, "0%")`, `$fromMillis(E)`, `$fromMillis(E, "[Y]-[M]-[D] [H]:[m]:[s].[f]")`, `$fromMillis(E, (), "+0100")`, `$string(E)`, `$number("E")`,
+					`[1,2,3][E]`, `[1,2,3][[E, F]]`, `$sum([E, F])`, `$average([E, F])`, `$max([E, F])`, `E + F`, `E * F`, `E / F`, `E % F`, `E & ""`, `-(E)`,
+					`$zip([1,2],[3,4])[E]`, `$reduce([1,2,3], function($a,$b){$a+$b}, E)`, `$map([E, F], $string)`, `$sort([E, F, 1])`, `$toMillis($fromMillis(E))`,
+					`$formatInteger(E, "w")`, `$pad("x", 3, $string(E))`, `$join([$string(E), $string(F)], ",")`, `$boolean(E)`, `$not(E)`, `$type(E)`, `$count([E])`,
+				}
+				shape := shapes[c.Choose(len(shapes))]
+				e := edges[c.Choose(len(edges))]
+				f := "1"
+				if strings.Contains(shape, "F") {
+					f = edges[c.Choose(len(edges))]
+				}
+				c.Done()
+				prog := strings.NewReplacer("E", e, "F", f).Replace(shape)
+				c09Run(x, prog)
+			}},
 			{Name: "number-picture-chaos", Quick: []int{0, 1, 2, 3, 4}, Thorough: []int{0, 1, 2, 3, 4, 5}, Run: func(c *explore.Chooser, x *explore.Ctx, size int) {
 				units := []string{"0", "#", ",", ".", ";", "%", "‰", "e", "x", "-", " ", "9"}
 				var sb strings.Builder
